@@ -8,6 +8,10 @@ NOTE = ("trusted base: gosym engine (/verif/engine: go/ssa interpreter + term re
 CLAIMS = {
  "C01": ("5 C01", "Bounded symbolic model checking of the real pack/unpack code: for each of the 27 constructors x both dialects every integer field is a full-width symbolic value, strings are 0..3 (thorough 0..6) symbolic bytes plus the exact lengths 255/256 (thorough 65535), 0..2 (thorough 16) names/qids, payloads 0..4 (thorough 0..16 and 8192) bytes, buffers of need-1/need/need+5 bytes; every assertion (bytes == independent layout table, decode == input, SetTag) is discharged by z3 with term rewriting disabled (raw mode). Nothing is claimed outside these bounds."),
  "C02": ("5 C02", "Bounded symbolic model checking of Unpack/UnpackDir on fully symbolic inputs: every byte string of length 0..24 (thorough 0..32) for every type byte in both dialects, plus the stat-carrying types up to the minimal stat packet + 3 (thorough + 6) bytes (beyond 62/66 bytes under the stated assumption that each stat string is <= 1 (2) bytes). Panic VCs, size/consumed relations, aliasing inside the packet, independence of trailing bytes, re-encode round trip and a (deliberately loose) allocation bound are decided by z3 per path; the path set is exhaustive within the bound."),
+
+ "C03": ("5 C03", "Bounded model checking of the real reply path: (a) Respond/RespondR*/RespondError on a request with arbitrary status bits and 1..3 answers queues a reply exactly when the request was neither answered nor flushed; (b) end-to-end through Srv.NewConn on a scripted transport: after Tversion/Tattach/Topen, 2 (thorough 3) concurrent Tread/Twrite with distinct symbolic tags and offsets, implementation answering ok / with an error / twice, Maxpend 0/1(/4), every completion order and every interleaving of receiver, workers and sender with <= 1 (thorough 2) preemptions; the wire log must hold exactly one frame per request tag whose bytes equal the independent encoding of what the implementation produced for that request. Happens-before race detection runs on every schedule."),
+ "C05": ("5 C05", "One-step symbolic model checking of Process(): fid state (type byte, opened, open mode) fully symbolic, request of type Twalk/Topen/Tcreate/Tread/Twrite with all fields full-width symbolic (32-bit counts, any msize >= 24, both dialects), with and without AuthOps; a three-valued reference rule transcribed from the statement decides must-refuse / must-forward / either; forwarded requests must reach the implementation exactly once with the table's fid, its user and unchanged arguments, with no framework lock held. Plus: AuthCheck precedes every forwarded attach (symbolic uid / afid), and an observer goroutine at the reply rendezvous sees the request's effects in every schedule (<= 2 preemptions). One step from an arbitrary state: history length is not a bound."),
+ "C20": ("5 C20", "Bounded model checking of the real Logger (its goroutine, channels and select): capacity 1..2 (thorough ..3), every sequence of 3 (thorough 4-5) Log/Filter calls with symbolic types, plus a final Filter after quiescence, and two concurrent producers; all schedules with <= 1 (thorough 2) preemptions and every select choice; oracle = reference ring (subsequence in log order, no duplicates, no gaps, <= N, convergence to the last N, nobody parked but the logger)."),
 }
 props = [json.loads(l) for l in open(os.path.join(V, "properties.jsonl"))]
 checks, na = [], []
